@@ -104,6 +104,12 @@ func oracleC01(c *oracleCtx) {
 		c01Check(c, src, c01Cfgs(c, src, []string{"c", "cm", "p:2020:1", "p:09:0"}), false)
 		c.count(src)
 	}
+	// directed sources: every kind of literal as the object of a member access / call (decimal integers need care:
+	// `1.toString()` is not JavaScript) — the defect repaired by the "fix: integer literal before a dot" commit
+	for _, src := range c01LiteralObjectSources() {
+		c01Check(c, src, c01Cfgs(c, src, []string{"c", "p:2020:1", "p:09:0"}), true)
+		c.count(src)
+	}
 	// directed sources: escapes denoting the code points at the UTF-8 length boundaries (needed by seeded/C01-m3)
 	for _, src := range c01EscapeSources() {
 		c01Check(c, src, c01Cfgs(c, src, []string{"c", "p:2020:1"}), false)
@@ -176,6 +182,28 @@ func c01SignSources() []string {
 	}
 	for _, rel := range []string{"<", ">", "<=", "=="} {
 		out = append(out, "let a = 7\nlet b = 3\nconsole.log(a "+rel+" !--b)\nconsole.log(a "+rel+" !- -b, b)\n")
+	}
+	return out
+}
+
+// c01LiteralObjectSources: literals of every lexical form in object / callee-adjacent positions.
+func c01LiteralObjectSources() []string {
+	lits := []string{"1", "10", "0", "255", "1.5", "0.5", "1e3", "2E2", "0x1f", "0XFF", "0b101", "0o17", "\"ab\"", "'cd'", "`ef`", "true", "null"}
+	var out []string
+	for i := 0; i < len(lits); i += 4 {
+		j := i + 4
+		if j > len(lits) {
+			j = len(lits)
+		}
+		src := ""
+		for _, l := range lits[i:j] {
+			if l == "null" {
+				src += "console.log([" + l + "].length, (" + l + ") == " + l + ")\n"
+				continue
+			}
+			src += "console.log(" + l + " .toString(), (" + l + ").toString().length, " + l + " [\"toString\"]().length, [" + l + " .toString()][0], 2 * " + l + " .toString().length)\n"
+		}
+		out = append(out, src)
 	}
 	return out
 }
